@@ -236,12 +236,12 @@ func VerifC18_Window() {
 	minRTT, sum := verif.Int64("w.minRTT"), verif.Int64("w.sum")
 	maxIF, count := verif.Int("w.maxInFlight"), verif.Int("w.count")
 	drop := verif.Bool("w.didDrop")
-	verif.Assume(count >= 0 && count < 1<<30 && sum >= 0 && sum < 1<<61 && maxIF >= 0 && maxIF < 1<<31 && minRTT >= 1)
+	verif.Assume(count >= 0 && count < 1<<30 && sum >= 0 && sum < 1<<61 && maxIF >= 0 && maxIF < 1<<31 && minRTT >= 0)
 	w := &ImmutableSampleWindow{startTime: 5, minRTT: minRTT, sum: sum, maxInFlight: maxIF, sampleCount: count, didDrop: drop}
 	r1, r2 := verif.Int64("rtt1"), verif.Int64("rtt2")
 	f1, f2 := verif.Int("inflight1"), verif.Int("inflight2")
 	d1, d2 := verif.Bool("drop1"), verif.Bool("drop2")
-	verif.Assume(r1 >= 1 && r1 < 1<<60 && r2 >= 1 && r2 < 1<<60 && f1 >= 0 && f1 < 1<<31 && f2 >= 0 && f2 < 1<<31)
+	verif.Assume(r1 >= 0 && r1 < 1<<60 && r2 >= 0 && r2 < 1<<60 && f1 >= 0 && f1 < 1<<31 && f2 >= 0 && f2 < 1<<31)
 	add := func(x *ImmutableSampleWindow, r int64, f int, d bool) *ImmutableSampleWindow {
 		if d {
 			return x.AddDroppedSample(7, f)
